@@ -540,3 +540,22 @@ def field_ref_sinks(prog, adt_path, field_idx):
                     progress = True
                 sinks[(bp, "ret")] = (bp, "<return>", b.loc(0), T[0], -1)
     return sorted(sinks.values(), key=repr)
+
+
+def leaf_owner(prog, adt_path, path):
+    """(struct that directly owns the leaf, field index) for a path of field indices through nested private structs"""
+    cur = adt_path
+    path = tuple(path)
+    for k, i in enumerate(path[:-1]):
+        t = prog.types[prog.adts[cur]["variants"][0]["fields"][i]["ty"]]
+        if t["k"] != "adt" or t["path"] not in prog.adts:
+            return None
+        cur = t["path"]
+    return (cur, path[-1]) if path else None
+
+
+def leaf_type(prog, adt_path, path):
+    o = leaf_owner(prog, adt_path, path)
+    if o is None:
+        return None
+    return prog.adts[o[0]]["variants"][0]["fields"][o[1]]["ty"]
